@@ -62,6 +62,8 @@ func normalizeHelpers(repo, tags, path string, known func(key string) bool) (map
 	lastHow := map[string]string{}  // site key -> inliner that made the edit
 	noGopls := map[string]bool{}    // sites where the gopls inliner's edit did not type-check: the statement inliner gets a try
 	prev := map[string][]byte{}     // file -> content before the most recent edit
+	canonRounds, canonOff, lastWasCanon := 0, false, false
+	var canonPrev map[string][]byte
 	for round := 0; round < 80; round++ {
 		cfg := &packages.Config{
 			Mode:    packages.NeedName | packages.NeedFiles | packages.NeedCompiledGoFiles | packages.NeedSyntax | packages.NeedTypes | packages.NeedTypesInfo | packages.NeedImports | packages.NeedDeps,
@@ -76,6 +78,18 @@ func normalizeHelpers(repo, tags, path string, known func(key string) bool) (map
 		if err != nil || len(pkgs) != 1 || len(pkgs[0].Errors) > 0 {
 			if round == 0 {
 				return nil, nil, nil // the plain load reports the problem
+			}
+			if lastWasCanon {
+				// the spelling pass produced something ill-typed: undo it and go on without it
+				for f, b := range canonPrev {
+					if b != nil {
+						overlay[f] = b
+					} else {
+						delete(overlay, f)
+					}
+				}
+				canonOff, lastWasCanon = true, false
+				continue
 			}
 			// undo the previous round's edits and remember not to try them again
 			if len(lastEdit) == 0 {
@@ -104,6 +118,23 @@ func normalizeHelpers(repo, tags, path string, known func(key string) bool) (map
 		}
 		lastEdit = map[string]string{}
 		p := pkgs[0]
+		// spelling normal form first (canon_ast.go); its result is type-checked by the next round's load
+		if !canonOff && canonRounds < 4 {
+			if ed := canonicalSpelling(p, overlay); len(ed) > 0 {
+				canonPrev = map[string][]byte{}
+				for f, b := range ed {
+					canonPrev[f] = overlay[f]
+					overlay[f] = b
+				}
+				canonRounds++
+				lastWasCanon = true
+				if canonRounds == 1 {
+					notes = append(notes, fmt.Sprintf("spelling normal form applied to %d file(s)", len(ed)))
+				}
+				continue
+			}
+		}
+		lastWasCanon = false
 		// unknown declarations
 		unknown := map[*types.Func]*ast.FuncDecl{}
 		fileOf := map[*ast.FuncDecl]*ast.File{}
